@@ -116,7 +116,7 @@ def run(tier, seed, build, pid="C01"):
         if r.get("outcome") == "ok" and ({"complement", "domains()", "wildcard", "anonymous"} & f):
             nontrivial.add(c["text"])
     return {"evaluations": len(cases), "distinct_nontrivial": len(nontrivial),
-            "rule": "component ASTs generated bottom-up (base sequences over all 15 codes with multipliers 0.. and at most one '?', super-sequences over earlier names with stars, domains(), anonymous regions, strands with [dummy], structures in plain / run-length / HU / domain-level notation, kinetics, ports), printed with random spelling; compiled by compiler.compiler(synth=True). Non-trivial = accepted and uses a complement, domains(), a wildcard or an anonymous region",
+            "rule": "component ASTs generated bottom-up (base sequences over all 15 codes with multipliers 0.. and at most one '?', super-sequences over earlier names with stars, domains(), anonymous regions, strands with [dummy], structures in plain / run-length / HU / domain-level notation, kinetics, ports), printed with random spelling; compiled by compiler.compiler(synth=True). Non-trivial = accepted and uses a complement, domains(), a wildcard or an anonymous region; every seventh text reaches two of its quoted multipliers through a `length` variable that is re-assigned between the uses",
             "samples": [c["text"] for c in cases[:2]], "distribution": dist, "failures": failures}
 
 def replay(path):
